@@ -15,7 +15,6 @@
 package bfe_proxy
 
 import (
-	"fmt"
 	"io"
 	"net"
 	"sync"
@@ -192,20 +191,16 @@ func (p *Conn) checkProxyHeader() error {
 		return err
 	}
 
-	// initial real src/dst address
-	srcAddr := net.JoinHostPort(hdr.SourceAddress.String(), fmt.Sprintf("%d", hdr.SourcePort))
-	p.srcAddr, err = net.ResolveTCPAddr(hdr.TransportProtocol.String(), srcAddr)
-	if err != nil { /* never go here */
-		p.Close()
-		return err
+	// LOCAL command, UNKNOWN/UNSPEC family, or a family other than TCP over
+	// IPv4/IPv6: use the real connection endpoints (UNSPEC mode)
+	proto := hdr.TransportProtocol
+	if hdr.Command.IsLocal() || !proto.IsStream() || !(proto.IsIPv4() || proto.IsIPv6()) {
+		return nil
 	}
 
-	dstAddr := net.JoinHostPort(hdr.DestinationAddress.String(), fmt.Sprintf("%d", hdr.DestinationPort))
-	p.dstAddr, err = net.ResolveTCPAddr(hdr.TransportProtocol.String(), dstAddr)
-	if err != nil { /* never go here */
-		p.Close()
-		return err
-	}
+	// initial real src/dst address
+	p.srcAddr = &net.TCPAddr{IP: hdr.SourceAddress, Port: int(hdr.SourcePort)}
+	p.dstAddr = &net.TCPAddr{IP: hdr.DestinationAddress, Port: int(hdr.DestinationPort)}
 
 	return nil
 }
